@@ -41,29 +41,35 @@ def change_one(g: VGen, v: dict) -> Optional[Tuple[dict, str]]:
     r = g.rng
     v2 = copy.deepcopy(v)
     ns = list(nodes(v2))
-    r.shuffle(ns)
+    cands: List[Tuple[Tuple, dict, str]] = []
     for path, n in ns:
         k = n["k"]
         opts: List[str] = []
         if k == "scalar":
-            opts += ["coerce", "pred_param", "drop_pred", "add_pred", "proc", "ty"]
+            opts += ["coerce", "pred_param", "drop_pred", "add_pred", "proc", "ty", "coerce_fn", "apred"]
         elif k == "equals":
             opts += ["match_type", "match_val", "proc"]
         elif k in ("list", "set", "utuple", "map"):
-            opts += ["coerce", "drop_pred", "add_pred"]
+            opts += ["coerce", "drop_pred", "add_pred", "coerce_fn", "apred"]
         elif k == "ntuple":
             opts += ["coerce", "oc", "drop_field"]
         elif k == "record":
-            opts += ["failUnknown", "req", "oc", "drop_key", "coerce", "into", "cls"]
+            opts += ["failUnknown", "req", "oc", "drop_key", "coerce", "into", "cls", "swap_keys", "swap_keys", "swap_keys",
+                     "coerce_fn"]
         elif k == "union":
-            opts += ["swap", "drop_variant"]
+            opts += ["swap", "swap", "drop_variant"]
         elif k == "none":
             opts += ["coerce"]
-        r.shuffle(opts)
         for o in opts:
-            how = apply_change(g, n, o)
-            if how:
-                return v2, f"{k}@{'/'.join(map(str, path))}: {how}"
+            cands.append((path, n, o))
+    r.shuffle(cands)
+    # rare operators first half of the time, so that every constructor argument is varied often
+    if r.random() < 0.5:
+        cands.sort(key=lambda c: 0 if c[2] in ("swap_keys", "swap", "coerce_fn", "apred", "req", "cls", "into", "match_type") else 1)
+    for path, n, o in cands:
+        how = apply_change(g, n, o)
+        if how:
+            return v2, f"{n['k']}@{'/'.join(map(str, path))}: {how}"
     return None
 
 
@@ -85,6 +91,35 @@ def apply_change(g: VGen, n: dict, o: str) -> Optional[str]:
             n["coerce"] = g.user_coercer(n["ty"])
             return "coerce None -> user coercer"
         return None
+    if o == "coerce_fn":
+        cur = n.get("coerce")
+        if not isinstance(cur, dict):
+            # install a user coercer first where the constructor takes one, then vary only its function
+            return None
+        fns = [{"f": "rejectAll"}, {"f": "acceptAll"}, cur["fn"]]
+        new = [f for f in fns if f != cur["fn"]]
+        n["coerce"] = dict(cur, fn=r.choice(new), cid=g.cb())     # same compatible types, another function
+        return "coercer function changed (same compatible types)"
+    if o == "apred":
+        if k == "scalar" and n.get("asType") and isinstance(n["ty"], dict):
+            return None
+        ty = n["ty"] if k == "scalar" else {"list": "list", "set": "set", "utuple": "tuple", "map": "dict"}[k]
+        if not isinstance(ty, str):
+            return None
+        cur = n.get("apreds")
+        if cur:
+            n["apreds"] = None
+            return "async predicates removed"
+        n["apreds"] = [{"k": "user", "pid": g.pid(), "fn": {"f": "const", "b": False}}]
+        return "an async predicate added"
+    if o == "swap_keys":
+        if n["kind"] != "record" or len(n["keys"]) < 2:
+            return None
+        n["into"] = dict(n["into"], keys=list(n["into"]["keys"]))     # the target constructor stays the same object
+        n["keys"] = list(n["keys"])
+        for f in ("keys", "vals", "reqs"):
+            n[f][0], n[f][1] = n[f][1], n[f][0]
+        return "first two keys swapped"
     if o == "ty" and k == "scalar" and n.get("asType"):
         if isinstance(n["ty"], dict):
             n["ty"] = {"cls": g.new_class(0, hashable=True)}
